@@ -327,10 +327,8 @@ class Gen:
             b = self.block(icx, 0, 2)
             last = (i == n - 1)
             if r.random() < 0.45:
-                if last and not els and r.random() < 0.85:
+                if last and not els and r.random() < 0.7:
                     pass
-                elif last and not els and n >= 2 and not self.allow_last_ft:
-                    pass      # accepted by the unchanged analyzer although it breaks the rule: known finding, fixed witness only
                 else:
                     b.append(('fallthrough',))
             blocks.append(b)
@@ -379,7 +377,8 @@ def targeted(rng):
         [sw([[U, FT], [U]])], [sw([[FT, U], [U]])], [sw([[FT, FT], [U]])], [sw([[U, FT, U], [U]])],
         [sw([[('if', [FT], [])], [U]])], [sw([[('do', [FT])], [U]])],
         [sw([[U], [U, FT]], True, [U])], [sw([[U, FT]], True, [U])], [sw([[U, FT]])],
-        [sw([[U, FT], [U, FT], [U]])], [sw([[U]], True, [FT])], [sw([[U]], True, [U, FT])],
+        [sw([[U, FT], [U, FT], [U]])], [sw([[U]], True, [FT])], [sw([[U], [U, FT]])], [sw([[U, FT], [U], [U, FT]])],
+        [sw([[U], [FT]])], [sw([[U]], True, [U, FT])],
         [FT], [('while', [FT])], [sw([[('func', 101, [], [FT])], [U]])],
         [sw([[sw([[U, FT], [U]]), FT], [U]])], [sw([[sw([[U, FT]]), FT], [U]])],
     ]
